@@ -3,8 +3,11 @@
 Run after adding a check:  python3 tools/gen_manifest.py"""
 import json, os, re, subprocess, sys
 VERIF = os.path.dirname(os.path.dirname(os.path.abspath(__file__)))
-src = open(os.path.join(VERIF, "check")).read()
-built = set(re.findall(r'^    "(C\d+)": \[', src, re.M))
+import importlib.machinery, importlib.util
+_l = importlib.machinery.SourceFileLoader("chk", os.path.join(VERIF, "check"))
+_m = importlib.util.module_from_spec(importlib.util.spec_from_loader("chk", _l))
+_l.exec_module(_m)
+built = set(_m.CHECKS.keys())
 
 T = {
  "C01": ("exploration", "§4 C01", "bounded-exhaustive enumeration of sample-set structures (edit menu x configurations) through the real create/extract path",
